@@ -578,13 +578,20 @@ class MolGraph:
                 "expected"
             )
 
-        bonds = (matrix > threshold).nonzero()
+        bonds = [(int(i), int(j)) for i, j in zip(*(matrix > threshold).nonzero())]
 
-        for i, j in zip(*bonds):
+        for i, j in bonds:
+            if i == j or i not in self._atom_attrs or j not in self._atom_attrs:
+                raise ValueError(
+                    f"Matrix entry ({i}, {j}) is not a bond between two "
+                    "different atoms of the graph"
+                )
+
+        for i, j in bonds:
             if include_bond_order:
-                self.add_bond(int(i), int(j), bond_order=matrix[i, j])
+                self.add_bond(i, j, bond_order=matrix[i, j])
             else:
-                self.add_bond(int(i), int(j))
+                self.add_bond(i, j)
 
     @classmethod
     def compose(cls, mol_graphs: Iterable[MolGraph]) -> Self:
